@@ -6,7 +6,7 @@ from ..models import ModelEval, PyObj, Marker, Raised, fold
 from ..peval import Unsupported, ProgramRaised
 from ..poly import Poly, Fn
 from ..source import AnalysisError
-from .core_models import RawTok, ArrTok, core_hooks, make_vector, vector_components, VECTOR_Q
+from .core_models import RawTok, ArrTok, OpTok, core_hooks, make_vector, vector_components, VECTOR_Q
 from .core_folds import DG_Q, DS_Q, call_method, new_group, _ev
 
 ERR = (Unsupported, AnalysisError)
@@ -57,26 +57,109 @@ def sem(o):
         if h == "neg":
             return -sem(o[1])
         if h == "sqrt":
-            return Poly.sym(Fn("sqrt", sem(o[1])))
+            inner, outside = pull_units(sem(o[1]))
+            return Poly.sym(Fn("sqrt", inner)) * outside
         if h == "abs":
             return Poly.sym(Fn("abs", sem(o[1])))
+        if h == "raw" and len(o) == 3:
+            # the number of a physical quantity expressed in unit o[2]: quantity / unit
+            return sem(o[1]) * unit_pow(o[2], -1)
+        if h == "wrapraw" and len(o) == 3:
+            return sem(o[1]) * unit_pow(o[2], 1)
+        if h == "to" and len(o) == 3:
+            return sem(o[1])          # the same physical quantity
     raise NotAMask("not a numeric expression: %r" % (o,))
+
+
+def unit_pow(u, e):
+    from fractions import Fraction
+    if u in ("dimensionless", None):
+        return Poly.const(1)
+    p = Poly()
+    p.t = {((("unit", repr(u)), e),): Fraction(1)}
+    return p
+
+
+def _unit_part(mono):
+    return tuple(sorted(((s_, e) for s_, e in mono if isinstance(s_, tuple) and s_ and s_[0] == "unit"), key=repr))
+
+
+def pull_units(p):
+    """p = U * q with U a monomial in unit symbols common to all terms and of even exponents -> (q, sqrt(U)) for sqrt(p)"""
+    parts = {_unit_part(m) for m in p.t}
+    if len(parts) != 1:
+        return p, Poly.const(1)
+    up = next(iter(parts))
+    if not up or any(e % 2 for _, e in up):
+        return p, Poly.const(1)
+    from fractions import Fraction
+    q = Poly()
+    q.t = {tuple(x for x in m if not (isinstance(x[0], tuple) and x[0] and x[0][0] == "unit")): c for m, c in p.t.items()}
+    out = Poly()
+    out.t = {tuple((s_, e // 2) for s_, e in up): Fraction(1)}
+    return q, out
+
+
+def strip_common_unit(p):
+    """a polynomial all of whose terms carry the same unit factor compares with 0 like the polynomial without it (units are positive)"""
+    parts = {_unit_part(m) for m in p.t}
+    if len(parts) == 1 and next(iter(parts)):
+        q = Poly()
+        q.t = {tuple(x for x in m if not (isinstance(x[0], tuple) and x[0] and x[0][0] == "unit")): c for m, c in p.t.items()}
+        return q
+    return p
+
+
+def _old_strip_common_unit(p):
+    """a polynomial all of whose terms carry the same single 1/unit factor compares with 0 like the polynomial without it"""
+    units = None
+    for mono in p.t:
+        us = tuple(sorted((s_, e) for s_, e in mono if isinstance(s_, tuple) and s_ and s_[0] == "per"))
+        if units is None:
+            units = us
+        elif us != units:
+            return p
+    if not units or len(units) != 1 or units[0][1] != 1:
+        return p
+    out = Poly()
+    for mono, c in p.t.items():
+        term = Poly.const(c)
+        for s_, e in mono:
+            if not (isinstance(s_, tuple) and s_ and s_[0] == "per"):
+                term = term * (Poly.sym(s_) ** e)
+        out = out + term
+    return out
+
+
+def _atom(kind, a, b):
+    """a (<|<=) b with |x| on the left split into the two one-sided atoms"""
+    if isinstance(a, tuple) and a and a[0] in ("abs",) or (isinstance(a, tuple) and len(a) == 4 and a[0] == "op" and a[1] == "abs"):
+        inner = a[1] if a[0] == "abs" else a[2]
+        return frozenset([(kind, strip_common_unit(sem(inner) - sem(b))), (kind, strip_common_unit(-sem(inner) - sem(b)))])
+    return frozenset([(kind, strip_common_unit(sem(a) - sem(b)))])
 
 
 def mask_atoms(o):
     """origin tree of a boolean token -> frozenset of atoms ('lt'|'le', Poly) meaning Poly < 0 / Poly <= 0, all ANDed"""
+    if isinstance(o, tuple) and o and o[0] == "raw" and len(o) == 3:
+        return mask_atoms(o[1])
+    if isinstance(o, tuple) and o and o[0] in ("&",) and len(o) == 3:
+        return mask_atoms(o[1]) | mask_atoms(o[2])
+    if isinstance(o, tuple) and o and o[0] in ("<", "<=", ">", ">=") and len(o) == 3:
+        k = "lt" if o[0] in ("<", ">") else "le"
+        return _atom(k, o[1], o[2]) if o[0] in ("<", "<=") else _atom(k, o[2], o[1])
     if isinstance(o, tuple) and o and o[0] == "op":
         _, op, a, b = o
         if op in ("__and__", "__iand__", "__rand__"):
             return mask_atoms(a) | mask_atoms(b)
         if op == "__lt__":
-            return frozenset([("lt", sem(a) - sem(b))])
+            return _atom("lt", a, b)
         if op == "__gt__":
-            return frozenset([("lt", sem(b) - sem(a))])
+            return _atom("lt", b, a)
         if op == "__le__":
-            return frozenset([("le", sem(a) - sem(b))])
+            return _atom("le", a, b)
         if op == "__ge__":
-            return frozenset([("le", sem(b) - sem(a))])
+            return _atom("le", b, a)
     raise NotAMask("not a conjunction of comparisons: %r" % (o,))
 
 
@@ -106,7 +189,10 @@ class Scenario:
         self.tree, self.inside = tree, inside
         self.any_calls = []
         self.warned = []
-        self.hooks = core_hooks({"numpy.any": self._any, "numpy.all": self._all, "numpy.count_nonzero": self._count, "warnings.warn": lambda *a, **k: self.warned.append(a)})
+        self.hooks = core_hooks({"numpy.abs": lambda x: OpTok("abs", x, None) if isinstance(x, ArrTok) else RawTok(("abs", x.origin), x.shape) if isinstance(x, RawTok) else abs(x),
+                                 "numpy.absolute": lambda x: OpTok("abs", x, None) if isinstance(x, ArrTok) else RawTok(("abs", x.origin), x.shape),
+                                 "numpy.logical_and": lambda a, b: a & b, "numpy.logical_and.reduce": lambda xs, *a, **k: _reduce(lambda p, q: p & q, list(xs)),
+                                 "numpy.any": self._any, "numpy.all": self._all, "numpy.count_nonzero": self._count, "warnings.warn": lambda *a, **k: self.warned.append(a)})
         hooks = self.hooks
         ev = _ev(tree, hooks, DS_Q + ".__init__")
         self.ds = ev.instantiate(tree.cls(DS_Q), [], {}, None)
@@ -121,7 +207,7 @@ class Scenario:
             self._group("other", 5, pos=None, members={"foo": "foo"})
         self.ds._attrs["meta"] = {"time": "T", "ndim": 3}
         self.radius = ArrTok("radius", "cm", ())
-        self.sizes = {c: ArrTok("d" + c, "cm", ()) for c in "xyz"}
+        self.sizes = {c: ArrTok("d" + c, u, ()) for c, u in zip("xyz", ("cm", "m", "km"))}
         self.origin, _ = make_vector(tree, {c: "o." + c for c in "xyz"}, unit="cm", shape=(), hooks=hooks)
 
     def _group(self, name, n, pos, members, vector=None):
@@ -179,12 +265,25 @@ def member_state(sc, m):
     return (m.origin, m.unit.name)
 
 
+def _reduce(f, xs, *init):
+    xs = list(xs)
+    acc = init[0] if init else xs.pop(0)
+    for x in xs:
+        acc = f(acc, x) if callable(f) and not isinstance(f, Marker) else None
+    return acc
+
+
 def run_extract(sc, kind):
+    from . import core_models as cm
     fi = sc.tree.func(FUNCS[kind])
     ev = ModelEval(sc.tree, fi, {}, sc.hooks)
-    if kind == "sphere":
-        return ev.invoke(fi, [sc.ds, sc.radius, sc.origin], {}, None)
-    return ev.invoke(fi, [sc.ds, sc.sizes["x"], sc.sizes["y"], sc.sizes["z"], sc.origin], {}, None)
+    cm.RAW_UNITS[0] = True        # raw numbers remember the unit they are expressed in
+    try:
+        if kind == "sphere":
+            return ev.invoke(fi, [sc.ds, sc.radius, sc.origin], {}, None)
+        return ev.invoke(fi, [sc.ds, sc.sizes["x"], sc.sizes["y"], sc.sizes["z"], sc.origin], {}, None)
+    finally:
+        cm.RAW_UNITS[0] = False
 
 
 def check_extract(run, tree, mesh_name):
